@@ -88,7 +88,7 @@ def run(ctx):
     corr_ok, mism, idx = True, [], []
     chan_mism = []
     if rp is None and chan:
-        okc2, idx2, clog2 = ctx.eval_cases(C13.imports(chan[0]["cert"]), C13.CTYPE, [C13.term(c) for c in chan], C13.AGREE, shard=40, name="Chan")
+        okc2, idx2, clog2 = ctx.eval_cases(C13.imports(chan[0]["cert"], chan[0].get("eccert", "")), C13.CTYPE, [C13.term(c) for c in chan], C13.AGREE, shard=40, name="Chan")
         if not okc2:
             corr_ok = False
             detail["chan_cases"] = clog2[-1500:]
